@@ -334,21 +334,11 @@ def knownLeakSites : List KnownLeak := [
     exit := "return",
     causeCalls := prec4 "" "snode_dfs" ++ prec4 "" "LUMemXpand" ++ prec4 "" "column_dfs" ++ prec4 "" "column_bmod" ++
                   prec4 "" "copy_to_ucol" ++ prec4 "ilu_" "snode_dfs" ++ prec4 "ilu_" "column_dfs" ++ prec4 "ilu_" "copy_to_ucol",
-    causes := ["error"] },      -- [sdcz]gsitrf.c:494-495 `int error = XLUMemXpand(..); if (error) { *info = error; return; }`
-  /- NEW, found by this scan: [sdcz]memory.c:283-288 — under library allocation, when the four factor arrays
-     cannot be obtained even at the smallest size (`nzlumax < annz`), XLUMemInit frees lusup/ucol/lsub/usub and
-     Glu->expanders and returns, but the five pointer arrays xsup, supno, xlsub, xlusup, xusub allocated at
-     lines 237-241 are still only in local variables: they are never released. -/
-  { finding := "LUMemInit-not-enough-memory-pointer-arrays",
-    files := prec4 "SRC/" "memory.c", funcs := prec4 "" "LUMemInit",
-    vars := ["xsup", "supno", "xlsub", "xlusup", "xusub"],
-    exit := "return", causeCalls := [], causes := ["nzlumax < annz"] },
-  /- NEW, found by this scan: [sdcz]sp_blas2.c — sp_Xtrsv allocates `work` (line 130) and then takes the
-     "quick return" `if ( L->nrow == 0 ) return 0;` / `if ( U->nrow == 0 ) return 0;` (lines 137, 191, 236, 273, …)
-     without releasing it: a zero-size block per call on an empty factor. -/
-  { finding := "sp_trsv-quick-return-work",
-    files := prec4 "SRC/" "sp_blas2.c", funcs := prec4 "sp_" "trsv", vars := ["work"],
-    exit := "return", causeCalls := [], causes := ["L->nrow == 0", "U->nrow == 0"] }
+    causes := ["error"] }      -- [sdcz]gsitrf.c:494-495 `int error = XLUMemXpand(..); if (error) { *info = error; return; }`
+  /- Two further leaks this scan found on its first run were repaired in /repo and are therefore NOT listed (the
+     theorem fails if either returns): [sdcz]LUMemInit left xsup/supno/xlsub/xlusup/xusub allocated on its
+     `nzlumax < annz` return under library allocation (repaired by 71213ea); sp_[sdcz]trsv left `work` allocated
+     on the quick return for an empty factor (repaired by 76975ed). -/
 ]
 
 /-- Reviewed exceptions: exits the scanner reports because it cannot establish a fact, where the block IS
@@ -393,7 +383,16 @@ def reviewedSites : List Reviewed := [
      when the allocation was.  Pointer (in)equality with a fresh block is not a fact the scanner keeps. -/
   { files := prec4 "SRC/ilu_" "copy_to_ucol.c", funcs := prec4 "ilu_" "copy_to_ucol", vars := ["work"],
     exit := "return", cause := "", bypass := "work != work0",
-    why := "released iff the pointer differs from the caller's array, i.e. iff it was allocated" }
+    why := "released iff the pointer differs from the caller's array, i.e. iff it was allocated" },
+  /- [sdcz]memory.c:236-247/281-293 (XLUMemInit): `if ( Glu->MemModel == SYSTEM ) { xsup = int32Malloc(..); … }` and, on the
+     `nzlumax < annz` return, `if ( Glu->MemModel == SYSTEM ) { SUPERLU_FREE(xsup); … }` (release added by /repo 71213ea;
+     in a caller work area the five arrays are pieces of that area and must not be freed).  Glu->MemModel is written
+     only by XSetupSpace, which this arm of XLUMemInit calls once, before the allocation, and in the other arm of
+     XLUMemInit (SamePattern_SameRowPerm, lines 322-327); the scanner drops the fact because Glu is passed to Xexpand
+     in between and a field named MemModel is assigned somewhere in the library. -/
+  { files := prec4 "SRC/" "memory.c", funcs := prec4 "" "LUMemInit", vars := ["xsup", "supno", "xlsub", "xlusup", "xusub"],
+    exit := "return", cause := "nzlumax < annz", bypass := "Glu->MemModel == SYSTEM",
+    why := "same test of Glu->MemModel at allocation and release; nothing between the two writes it" }
 ]
 
 /-- Reviewed sites whose record carries a flag rather than a leaking exit. -/
